@@ -688,6 +688,20 @@ class Engine:
         if e.kind == 'callback': return self.callback(e, st)
         if e.kind == 'ext' or (e.kind == 'prim' and isinstance(e.fn, str) and e.fn.startswith('ext.')):
             nm = e.fn.split(':')[-1].split('.')[-1]
+            if e.fn == 'ext:ctor:urd' and len(e.args) == 2:
+                # R18: std::uniform_real_distribution<double>(a, b); the standard requires a <= b
+                a_, b_ = [self.to_real(self.ev(x, st)) for x in e.args]
+                self.oblige(st, a_ <= b_, 'std.requires', 'std::uniform_real_distribution(a, b) is constructed with a <= b')
+                o_ = Str(sym='urd'); o_.urd = (a_, b_)
+                return o_
+            if e.fn == 'ext:operator()' and len(e.args) == 2 and getattr(e.args[0], 't', None) == 'urd':
+                d_ = self.ev(e.args[0], st)
+                if getattr(d_, 'urd', None) is None: raise E2Error('uniform_real_distribution object of unknown parameters')
+                a_, b_ = d_.urd
+                r_ = fresh('urd.draw', z3.RealSort())
+                st.assume(z3.And(a_ <= r_, r_ <= b_, z3.Implies(a_ < b_, r_ < b_)))      # trusted (R18): a draw lies in [a, b)
+                self.notes.append('std::uniform_real_distribution draw: a value of [a, b) (trusted, R18)')
+                return r_
             if e.fn.startswith('ext:ctor:'):
                 return Str(sym='extobj')
             if self.cur is not None and nm in self.cur.externs:
@@ -1271,15 +1285,17 @@ class Engine:
                     self.check_clause(cl, le, 'lambda.requires', what=who + 'the lambda passed as %s is called within its precondition: ' % pname)
             finally:
                 self.uf_rename = keep_
+        # a caller whose contract documents give-up exits (`option may_exit`: partial correctness) may also end inside a callee
+        strict_ = self.mode != 'reject' and not (self.cur is not None and self.cur.options.get('may_exit'))
         if sp.valid_iff is not None:
-            if self.mode != 'reject':
+            if strict_:
                 for c in self.clause_conjuncts(sp.valid_iff.expr):
                     for v in self.clause_vals(c, cs):
                         self.oblige(cs, v, 'call.noexit', who + 'callee does not terminate the process: ' + SP.show(c))
             self.assume_clause(sp.valid_iff.expr, cs)
         elif sp.exits_iff is not None:
             V = self.sv(sp.exits_iff.expr, cs)
-            if self.mode != 'reject':
+            if strict_:
                 self.oblige(cs, z3.Not(V), 'call.noexit', who + 'callee does not terminate the process: !(%s)' % sp.exits_iff.text)
             cs.assume(z3.Not(V))
         if self.cur is sp and sp.decreases is not None and self.entry_dec is not None:
